@@ -26,6 +26,7 @@ func init() {
 	evals["csrrt"] = evalCsrrt
 	evals["crlrt"] = evalCrlrt
 	evals["issue2"] = evalIssue2
+	evals["tmplreuse"] = evalTmplreuse
 	gens["C09"] = genC09
 }
 
@@ -485,6 +486,68 @@ func evalIssue2(args []string) string {
 	return "ok"
 }
 
+// tmplreuse <seed> : ONE template object and ONE hand-built parent object used for several certificates in a
+// row, with fields changed between the calls (subject, serial, names, usages; the parent's subject): every
+// certificate must parse back to the values its template had when it was made, and name the parent as it was
+// then.  Intrinsic oracle; the model side prints ok.
+func evalTmplreuse(args []string) string {
+	if len(args) != 1 {
+		return "bad-op"
+	}
+	seed, _ := strconv.ParseUint(args[0], 10, 64)
+	r := newRng(seed)
+	ck := keyFor(811)
+	parent := &x509.Certificate{Subject: randName(r)}
+	if r.chance(1, 2) {
+		parent.SubjectKeyId = []byte{7, 7, byte(r.intn(256))}
+	}
+	t := randTemplate(r)
+	t.SignatureAlgorithm = 0
+	for round := 0; round < 3+r.intn(3); round++ {
+		subj := keyFor(600 + r.intn(5))
+		der, err := x509.CreateCertificate(t, parent, &subj.PublicKey, ck)
+		if err != nil {
+			return "reject"
+		}
+		c, err := x509.ParseCertificate(der)
+		if err != nil {
+			return fmt.Sprintf("ORACLE-FAIL:round%d:parse-back", round)
+		}
+		if f := compareCert(t, c); f != "" {
+			return fmt.Sprintf("ORACLE-FAIL:round%d:field-differs:%s", round, f)
+		}
+		if !bytes.Equal(c.RawIssuer, mustRawName(parent.Subject)) {
+			return fmt.Sprintf("ORACLE-FAIL:round%d:issuer-name", round)
+		}
+		if !bytes.Equal(c.RawSubject, mustRawName(t.Subject)) {
+			return fmt.Sprintf("ORACLE-FAIL:round%d:subject-name", round)
+		}
+		if c.PublicKey.(*ecdsa.PublicKey).X.Cmp(subj.X) != 0 {
+			return fmt.Sprintf("ORACLE-FAIL:round%d:subject-key", round)
+		}
+		// change the objects in place for the next round
+		switch r.intn(4) {
+		case 0:
+			t.Subject = randName(r)
+		case 1:
+			t.Subject.CommonName = fmt.Sprintf("cn-%d", r.intn(1000))
+		case 2:
+			nt := randTemplate(r)
+			nt.SignatureAlgorithm = 0
+			*t = *nt
+		case 3:
+			t.DNSNames = append([]string{fmt.Sprintf("h%d.example.com", r.intn(100))}, t.DNSNames...)
+			t.SerialNumber = big.NewInt(int64(1 + r.intn(1<<30)))
+		}
+		if r.chance(1, 2) {
+			parent.Subject = randName(r)
+		} else if r.chance(1, 2) {
+			parent.Subject.CommonName = fmt.Sprintf("ca-%d", r.intn(1000))
+		}
+	}
+	return "ok"
+}
+
 func genC09(r *rng, tier string, emit func(string)) {
 	n := 10
 	if tier == "thorough" {
@@ -511,6 +574,7 @@ func genC09(r *rng, tier string, emit func(string)) {
 		}
 		for k := 0; k < 4; k++ {
 			emit(fmt.Sprintf("issue2 %d", r.intn(1<<30)))
+			emit(fmt.Sprintf("tmplreuse %d", r.intn(1<<30)))
 		}
 	}
 	c09xGen(r, tier, emit) // extension codecs (kuext / bcext) against Model.X509Ext
